@@ -624,16 +624,23 @@ def gen_simple(rng, n):
     """the 13 simple entry points and their wrappers (start/stop routine, timing-parameter helpers, ...)"""
     from . import hist
     out = []
-    for _ in range(n):
+    # corpus (runs first): link control with standard / custom identifiers, guessed types and the 24-bit boundary
+    corpus = [('lc', 1, 0x20, 'i'), ('lc', 1, 0xFF, 'i'), ('lc', 1, 0xFF, 'a'), ('lc', 1, 0x12, 'i'), ('lc', 2, 0x12, 'i'), ('lc', 2, 0x20, 'i'), ('lc', 1, 0x100, 'a'),
+              ('lc', 2, 0xFFFFFF, 'a'), ('lc', 2, 0x1000000, 'a'), ('lc', 2, 0x1000000 + 500000, 'a'), ('lc', 2, 0xFFFFFF, 's'), ('lc', 2, 0x1000000, 's'), ('lc', 1, 500000, 'a'),
+              ('lc', 2, 500000, 'f'), ('lc', 1, 500000, 's'), ('lc', 1, 123456, 's'), ('lc', 3, None, 'f'), ('lc', 3, 9600, 'f'), ('lc', 1, None, 'f')]
+    for i in range(n):
         std = rng.choice([2006, 2013, 2020])
-        e = hist.rand_entry(rng, std, allow_invalid=True)
-        if rng.random() < 0.25:      # push one integer out of range / to a boundary
+        e = corpus[i] if i < len(corpus) else hist.rand_entry(rng, std, allow_invalid=True)
+        if i >= len(corpus) and rng.random() < 0.25:      # push one integer out of range / to a boundary
             e = mutate_entry(rng, e)
         ok = in_domain_simple(e, std)
         canon = canon_simple(e, std) if ok else None
         line = 'enc e=simple entry=%s std=%d' % (hist.entry_str(e), std)
         wrap = pick_wrapper(rng, e)
-        out.append(Case(wrap[0], wrap[1], line, ok, canon, {'standard_version': std}, sid=hist.SID[e[0]]))
+        cfg = {'standard_version': std}
+        if wrap[0] == 'unlock_security_access':
+            cfg['security_algo'] = lambda level, seed, params: b'\x00'
+        out.append(Case(wrap[0], wrap[1], line, ok, canon, cfg, sid=hist.SID[e[0]]))
     return out
 
 
@@ -665,7 +672,8 @@ def in_domain_simple(e, std):
     if k == 'cd':
         return 0 <= e[1] <= 0x7F
     if k == 'lc':
-        ct, rate, ty = e[1], e[2], e[3]
+        from . import hist
+        ct, rate, ty = e[1], e[2], hist.lc_eff_type(e[2], e[3])
         if not 0 <= ct <= 0x7F:
             return False
         if ct in (1, 2):
@@ -727,6 +735,9 @@ def pick_wrapper(rng, e):
             return 'read_active_timing_parameters', lambda c: c.read_active_timing_parameters()
         if e[1] == 4 and e[2] is not None:
             return 'set_timing_parameters', lambda c, e=e: c.set_timing_parameters(e[2])
+    if k == 'rs' and rng.random() < 0.35:
+        # the seed request of the seed/key composite: same level spelling rules, the seed parameters go out as the request data
+        return 'unlock_security_access', (lambda c, e=e: c.unlock_security_access(e[1], seed_params=e[2]) if e[2] else c.unlock_security_access(e[1]))
     from . import hist
     names = {'cs': 'change_session', 'er': 'ecu_reset', 'rs': 'request_seed', 'sk': 'send_key', 'tp': 'tester_present', 'cc': 'communication_control',
              'at': 'access_timing_parameter', 'cd': 'control_dtc_setting', 'lc': 'link_control', 'rc': 'routine_control', 'td': 'transfer_data',
@@ -756,10 +767,12 @@ def canon_simple(e, std):
     if k == 'lc':
         if e[2] is None:
             return 'linkControl %d -' % e[1]
+        from . import hist
+        ty = hist.lc_eff_type(e[2], e[3])
         if e[1] == 1:
             fixed = {9600: 1, 19200: 2, 38400: 3, 57600: 4, 115200: 5, 125000: 0x10, 250000: 0x11, 500000: 0x12, 1000000: 0x13}
-            return 'linkControl 1 %02x' % (e[2] if e[3] == 'i' else fixed[e[2]])
-        rate = BAUD_BY_ID[e[2]] if e[3] == 'i' else e[2]
+            return 'linkControl 1 %02x' % (e[2] if ty == 'i' else fixed[e[2]])
+        rate = BAUD_BY_ID[e[2]] if ty == 'i' else e[2]
         return 'linkControl %d %s' % (e[1], rate.to_bytes(3, 'big').hex())
     if k == 'rc':
         return 'routine %d %d %s' % (e[2], e[1], hx(e[3] or b''))
